@@ -10,7 +10,9 @@ LEVEL = "exploration"
 RULE = (
     "generated gated programs (if/else diamonds, multi-way single-/multi-target routes with fallback/None/END, two gates "
     "sharing a target, a gate targeting a gate, targets whose name is a prefix of a sibling's; default-open and "
-    "closed-by-default; flat, nested one level, and gate-driven loops), every selector swept over every table index "
+    "closed-by-default; flat, nested one level, gate-driven loops, and feedback programs in which a branch output "
+    "goes back into a gate that cannot decide again - it waits for a one-shot signal or sits under an outer gate that "
+    "re-decides against it), every selector swept over every table index "
     "(others random), on both runners with sampled completion orders. Trace rules on every execution: R1 a gated node "
     "(or nested graph node) starts only if some controlling gate's latest decision in that run names it or an "
     "undecided default-open gate allows it; R2 no step holds a gate and one of its targets; decisions taken from gate "
@@ -61,14 +63,18 @@ def check_events(ctx, rec, spec, case):
             ctx.violation("C03:event-mismatch", f"gate {g}: function returns map to {exp} but RouteDecisionEvents say {evs.get(g, [])}", case)
 
 
-def one(ctx, spec, inputs, runner, sched, label, with_proc=False, loop_ref=None):
+def one(ctx, spec, inputs, runner, sched, label, with_proc=False, loop_ref=None, max_iterations=None):
     case = {"spec": spec, "inputs": inputs, "runner": runner, "variant": label}
     s = core.with_async(spec, runner == "async", ctx.rng)
     procs = None
     if with_proc:
         Rec, _ = rt.make_processors()
         procs = [Rec("p")]
-    o = core.execute(s, inputs, runner, sched=sched, processors=procs)
+    o = core.execute(s, inputs, runner, sched=sched, processors=procs, max_iterations=max_iterations)
+    if max_iterations is not None and type(o.exc).__name__ == "InfiniteLoopError":
+        # feedback programs may legitimately never settle; the trace rules are judged on what ran
+        o.exc = None
+        ctx.obs["feedback_runs_capped"] += 1
     if o.deadlock:
         ctx.violation("C03:deadlock", "logical deadlock", case)
         return o
@@ -133,10 +139,20 @@ def run(ctx):
                 one(ctx, spec, base, runner, rt.Sched(default="rand", rng=rng) if runner == "async" else None, f"loop-{runner}", with_proc=rng.random() < 0.5, loop_ref=loop_ref)
             ctx.case({"loop": t["template"], "in": base}, True)
             continue
+        if r < 0.3:
+            spec = gen.gen_feedback_gated(rng)
+            for x in range(spec["table_len"]):
+                inputs = {"x": x, "seed": "run:seed", "flag": "run:flag"}
+                inputs = {k_: v for k_, v in inputs.items() if k_ in spec["inputs"]}
+                for runner in ("sync", "async"):
+                    one(ctx, spec, inputs, runner, rt.Sched(default="rand", rng=rng) if runner == "async" else None, f"feedback-{runner}", with_proc=rng.random() < 0.3, max_iterations=24)
+                ctx.obs["feedback_runs"] += 2
+                ctx.case({"s": gen.shape_of(spec), "fb": spec["feedback"], "x": x}, True)
+            continue
         spec = gen.gen_gated(rng, deterministic=rng.random() < 0.6)
-        if r < 0.4:
+        if r < 0.5:
             spec = nest(spec, rng)
-        elif r < 0.55:
+        elif r < 0.62:
             spec = gen.with_explicit_edges(spec)
         base = gen.gated_inputs(rng, spec)
         lens = selector_sizes(spec)
